@@ -46,13 +46,15 @@ THEOREM_NOTES = {
     "C03_coupling_law": "links prob_to/inflow to coupling_index/coupling_state: target p+1 iff u < pr, p-1 iff u >= pr",
     "C03_telescoping_nd_refuted": "F-C03-1: the faithful 2-d model of __coupling_state violates the identity on an explicit density table "
                                   "(vm_compute witness: inflow 23/36 vs coarse rate 1/4 at coarse state (1,0)); the implementation is replayed on the same table",
+    "n-d positive theorems": "C03_copy_rule_nd, C03_adjacency_nd, C03_corner1_is_law, C03_corner2_is_law (corner probabilities are a law when the "
+                             "denominator is not 0), C03_frozen_nd (any number of next_level calls); the general joint-mass telescoping theorem is NOT proved",
     "C03_telescoping_nd_joint_instance": "only an instance (the witness table, all 24 coarse states by vm_compute): the general theorem "
                                          "'joint corner masses telescope' (C03_telescoping_nd_joint) is NOT proved",
     "C03_sde": "not proved: couplingsde.py is not modelled; observation F-C03-2 (coarse SDE solution advanced on the level-l time grid) is not assessed",
     "expected coarse payoff = expected fine payoff at level l-1": "derived on paper from C03_telescoping_1d + C03_drift_diffusion_frozen + "
                                                                   "C03_same_brownian_increments + Poisson thinning; not formalised",
 }
-LEVEL_TEXT = ("Proof: 12 Coq theorems (closed under the global context). One-dimensional coupling, for every admissible axis, every middle "
+LEVEL_TEXT = ("Proof: 17 Coq theorems (closed under the global context). One-dimensional coupling, for every admissible axis, every middle "
               "function with the stated properties and every additive non-negative mass: after refine the coarse grid is the even "
               "indices and the coarse cells are bounded by the odd states; coupling_state copies even increments and moves odd ones to "
               "an adjacent coarse state; sum over fine states of rate x P(fine -> y) equals the coarse chain's rate of y (states of "
@@ -677,6 +679,22 @@ def _n_d(res, rng, viol, groups):
         if c._diffusion_matrix_2h is None or not np.array_equal(np.array(c._diffusion_matrix_2h, dtype=float), dm_prev) or \
                 not np.array_equal(np.array(c._diffusion_matrix_h, dtype=float), np.array(c.fine_process._path_simulation.diffusion_matrix, dtype=float)):
             viol("copula coupling: the coarse diffusion matrix is not the previous level's fine matrix", **ctx)
+        if name == "witness":      # a second next_level on a copy: the frozen quantities must again be those of the level being left
+            try:
+                with warnings.catch_warnings():
+                    warnings.simplefilter("ignore")
+                    c2 = copy.deepcopy(c)
+                    pms2 = copy.deepcopy(pms)
+                    d_prev = np.array(c2.fine_process.process_drift(), dtype=float).copy()
+                    m_prev = np.array(c2._diffusion_matrix_h, dtype=float).copy()
+                    c2.next_level(mc_paths=2, path_managers=pms2, product=product)
+                    path2 = np.asarray(pms2[-1].deterministic_path(np.array([0.0, 1.0])), dtype=float)
+                res.count(("nd-frozen-2", name), kind="copula next_level: frozen drift / diffusion matrix")
+                if c2.level != 2 or not np.array_equal(path2[1][:, 1] - path2[1][:, 0], d_prev.ravel()) or \
+                        not np.array_equal(np.array(c2._diffusion_matrix_2h, dtype=float), m_prev):
+                    viol("copula coupling: after a second next_level the coarse drift / diffusion matrix are not those of level 1", **ctx)
+            except Exception as e:  # noqa
+                viol(f"second next_level of the copula coupling raises {type(e).__name__}", reason=str(e)[:200], **ctx)
         xs = [float(x) for x in c.grid.axes[0]]
         o2 = c.grid.origin_coordinate.value[0]
         if c.grid.origin_coordinate.value != (o2, o2) or not np.array_equal(c.grid.axes[0], c.grid.axes[1]):
